@@ -190,6 +190,11 @@ func (rt *stubRT) RoundTrip(req *http.Request) (*http.Response, error) {
 		}
 		st.open--
 		st.inflight--
+		// like http.Transport: a request whose context was cancelled while it waited for the
+		// backend fails with the context's error
+		if err := req.Context().Err(); err != nil {
+			return nil, err
+		}
 	}
 	mode := st.mode
 	if m := req.Header.Get("X-Verif-Mode"); m != "" {
@@ -199,16 +204,77 @@ func (rt *stubRT) RoundTrip(req *http.Request) (*http.Response, error) {
 		// the backend takes 11 s (longer than every window and timeout of the harness
 		// configurations) before it answers - or the number of seconds given, "slow61+ok": the
 		// virtual clock moves while the request is in flight
-		secs := 11
+		took := 11 * time.Second
 		plus := strings.Index(mode, "+")
 		if n, err := strconv.Atoi(mode[len("slow"):plus]); err == nil {
-			secs = n
+			took = time.Duration(n) * time.Second
+		} else if n, err := strconv.Atoi(strings.TrimSuffix(mode[len("slow"):plus], "ms")); err == nil {
+			took = time.Duration(n) * time.Millisecond // "slow10001ms+ok"
 		}
 		if s := vrt.Cur(); s != nil {
-			s.AdvanceQuiet(time.Duration(secs) * time.Second)
+			s.AdvanceQuiet(took)
 		}
 		mode = mode[plus+1:]
 	}
+	if strings.HasPrefix(mode, "pieces") && strings.Contains(mode, "+") {
+		// the answer's body arrives in three pieces (three reads), as a body of some size does;
+		// "pieces500ms+ok": the backend is silent for that long before the second and third piece
+		plus := strings.Index(mode, "+")
+		var gap time.Duration
+		if n, err := strconv.Atoi(strings.TrimSuffix(mode[len("pieces"):plus], "ms")); err == nil {
+			gap = time.Duration(n) * time.Millisecond
+		}
+		r, err := rt.answer(req, st, mode[plus+1:])
+		if err == nil && r != nil {
+			b, _ := io.ReadAll(r.Body)
+			r.Body = &piecesBody{data: b, piece: (len(b) + 2) / 3, gap: gap}
+		}
+		return r, err
+	}
+	return rt.answer(req, st, mode)
+}
+
+// piecesBody hands out its data one piece per Read and fails reads after Close, like the body
+// of a real transport.
+type piecesBody struct {
+	data   []byte
+	piece  int
+	closed bool
+	gap    time.Duration
+	reads  int
+}
+
+func (b *piecesBody) Read(p []byte) (int, error) {
+	if b.reads++; b.reads > 1 && b.gap > 0 && len(b.data) > 0 && !b.closed {
+		// nothing arrives for a while: the read waits (the clock moves), and a timer of the
+		// code under test may close the body under it
+		if s := vrt.Cur(); s != nil {
+			s.AdvanceQuiet(b.gap)
+			s.FireDueFuncs()
+		}
+	}
+	if b.closed {
+		return 0, errors.New("http: read on closed response body")
+	}
+	if len(b.data) == 0 {
+		return 0, io.EOF
+	}
+	n := b.piece
+	if n > len(b.data) {
+		n = len(b.data)
+	}
+	if n > len(p) {
+		n = len(p)
+	}
+	copy(p, b.data[:n])
+	b.data = b.data[n:]
+	return n, nil
+}
+
+func (b *piecesBody) Close() error { b.closed = true; return nil }
+
+// answer produces the scripted backend's response for the mode.
+func (rt *stubRT) answer(req *http.Request, st *stub, mode string) (*http.Response, error) {
 	if strings.HasPrefix(mode, "103+") {
 		// an interim response first, delivered the way a real transport does (client trace hook,
 		// which httputil.ReverseProxy installs to forward 1xx responses)
@@ -383,7 +449,11 @@ func (k *kit) requestWith(client string, h http.Handler, edit func(*http.Request
 				panic(r)
 			}
 		}()
-		h.ServeHTTP(&finalRecorder{ResponseRecorder: rec}, req)
+		fr := &finalRecorder{ResponseRecorder: rec}
+		if ms, err := strconv.Atoi(req.Header.Get("X-Verif-Client-Takes")); err == nil {
+			fr.takes = time.Duration(ms) * time.Millisecond
+		}
+		h.ServeHTTP(fr, req)
 	}()
 	res.Status = rec.Code
 	res.ServedBy = rec.Header().Get("X-Served-By")
@@ -398,6 +468,18 @@ func (k *kit) requestWith(client string, h http.Handler, edit func(*http.Request
 type finalRecorder struct {
 	*httptest.ResponseRecorder
 	interim []int
+	takes   time.Duration // how long the client takes to accept one write (X-Verif-Client-Takes, ms)
+}
+
+// Write: a client that is slow to take what it is sent makes the write take time
+func (f *finalRecorder) Write(p []byte) (int, error) {
+	if f.takes > 0 {
+		if s := vrt.Cur(); s != nil {
+			s.AdvanceQuiet(f.takes)
+			s.FireDueFuncs() // timers of the code under test that came due while the write was stuck
+		}
+	}
+	return f.ResponseRecorder.Write(p)
 }
 
 func (f *finalRecorder) WriteHeader(code int) {
@@ -427,6 +509,38 @@ func (k *kit) requestCancelled(client string) reqResult {
 		cancel()
 		*r = *r.WithContext(ctx)
 	})
+}
+
+// requestGoneMidway: the client goes away (its context is cancelled) while the request is in
+// flight at the backend. Sequential harnesses only.
+func (k *kit) requestGoneMidway(client string) reqResult {
+	var cancel context.CancelFunc
+	var res reqResult
+	done := false
+	before := k.inflightVector()
+	k.s.Spawn("gone-midway", func() {
+		res = k.requestWith(client, nil, func(r *http.Request) {
+			r.Header.Set("X-Verif-Hold", "1")
+			var ctx context.Context
+			ctx, cancel = context.WithCancel(r.Context())
+			*r = *r.WithContext(ctx)
+		})
+		done = true
+	})
+	k.s.Settle()
+	if cancel != nil {
+		cancel()
+	}
+	for i, n := range k.inflightVector() {
+		if n > before[i] {
+			k.release(k.stubs[i])
+		}
+	}
+	k.s.Settle()
+	if !done {
+		vh.ToolError("a request whose client went away never returned")
+	}
+	return res
 }
 
 // held is a client request kept in flight at its backend until released.
